@@ -215,8 +215,15 @@ func (u *uploader) ListParts(bucket, object string, uploadID UploadID, marker in
 		StorageClass:     "STANDARD", // FIXME
 	}
 
+	// A marker beyond the last part lists nothing (and must not slice out of
+	// range); part numbers are absolute, not relative to the marker.
+	if marker > len(mpu.parts) {
+		marker = len(mpu.parts)
+	}
+
 	var cnt int64
-	for partNumber, part := range mpu.parts[marker:] {
+	for idx, part := range mpu.parts[marker:] {
+		partNumber := idx + marker
 		if part == nil {
 			continue
 		}
